@@ -119,14 +119,32 @@ def find_tests(directory):
 
 
 def expected_errors(src):
-    """the `// error:` convention of /repo/sylt/src/test.rs (parse_test_settings)"""
+    """the `// error:` convention of /repo/sylt/src/test.rs (parse_test_settings + compare_errors):
+    `$` type error, `#` runtime error, `@` syntax error, anything else "an error whose Debug/Display
+    text contains this" -- which a runtime error (Debug text `RuntimeError`) satisfies iff the text
+    is a substring of it, e.g. `// error: Runtime`."""
     errs = []
     for line in src.split("\n"):
         if line.startswith("// error:"):
             body = line[len("// error:"):].strip()
             kind = {"$": "type", "#": "runtime", "@": "syntax"}.get(body[:1], "containing")
+            if kind == "containing" and body and body in "RuntimeError":
+                kind = "runtime"
             errs.append(kind)
     return errs
+
+
+# Disagreements with the repo's expectation that were investigated and are NOT interpreter bugs: the
+# repo's CI runs the tests with Lua 5.3 (.github/workflows/coverage.yml), LuaCore models Lua 5.1/LuaJIT.
+EXPLAINED = {
+    "core/string_conversion.sy":
+        "`as_str(2.0) <=> \"2.0\"`: tostring(2.0) is \"2\" in Lua 5.1/LuaJIT (\"2.0\" only since Lua 5.3); "
+        "every other assertion of the file holds",
+    "sylt_std/set_simple.sy":
+        "preamble.lua set_map builds its result with dict_new(), so `dd <=> set.from_list ...` compares a table "
+        "with __LUA_DICT_META against one with __LUA_SET_META: different __eq functions, hence `==` is false "
+        "without calling either in Lua 5.1/LuaJIT (Lua 5.3 calls the first operand's); every other assertion holds",
+}
 
 
 def compile_tests(files):
@@ -151,7 +169,7 @@ def run_tests(fuel, verbose=False):
             accepted.append((f, vlib.unhex(line.split(" ")[1])))
     results = lua_run.run_lua([lua for _, lua in accepted], fuel)
     wfs = lua_run.lua_wf([lua for _, lua in accepted])
-    report = {"agree": [], "disagree": [], "unsupported": [], "wf_bad": []}
+    report = {"agree": [], "disagree": [], "explained": [], "unsupported": [], "wf_bad": []}
     for (f, lua), r, wf in zip(accepted, results, wfs):
         rel = os.path.relpath(f, TESTS)
         errs = expected_errors(open(f, encoding="utf-8").read())
@@ -162,6 +180,8 @@ def run_tests(fuel, verbose=False):
             report["unsupported"].append((rel, r["msg"]))
         elif r["final"] == want:
             report["agree"].append((rel, r["final"], r["msg"]))
+        elif rel in EXPLAINED:
+            report["explained"].append((rel, "expected %s, got %s: %s" % (want, r["final"], r["msg"]), EXPLAINED[rel]))
         else:
             report["disagree"].append((rel, "expected %s, got %s: %s" % (want, r["final"], r["msg"])))
     return len(files), counts, report
@@ -198,6 +218,9 @@ def main(argv):
         print("  needs a feature LuaCore does not model: %d" % len(rep["unsupported"]))
         for rel, msg in rep["unsupported"]:
             print("    UNSUPPORTED %s: %s" % (rel, msg))
+        print("  differs from the repo's expectation for a known reason (Lua 5.3 vs 5.1/LuaJIT): %d" % len(rep["explained"]))
+        for rel, msg, why in rep["explained"]:
+            print("    EXPLAINED %s: %s\n        %s" % (rel, msg, why))
         print("  DISAGREE: %d" % len(rep["disagree"]))
         for rel, msg in rep["disagree"]:
             status = 1
